@@ -199,6 +199,32 @@ def apply (cfg : Config S) (s : State S) : Op S → State S × Out
 def run (cfg : Config S) (s : State S) (ops : List (Op S)) : State S :=
   ops.foldl (fun s op => (apply cfg s op).1) s
 
+/-! Several plugins alive in one process (the nodes of one simulation): every `MissionMobilityPlugin`
+    has its own protocol instance, configuration and fields; the class body only holds immutable
+    defaults that `self.… =` shadows per instance.  A call on one member touches that member only. -/
+
+/-- one plugin of a fleet: its configuration and its fields -/
+structure Member (S : Type) where
+  cfg : Config S
+  st : State S
+
+/-- freshly constructed plugins, one per configuration -/
+def fleetInit (cfgs : List (Config S)) : List (Member S) := cfgs.map (fun c => ⟨c, init⟩)
+
+/-- one public call on member `who` (no such member: nothing happens, reported as `crash`) -/
+def applyAt (f : List (Member S)) (who : Nat) (op : Op S) : List (Member S) × Out :=
+  match f[who]? with
+  | none => (f, .crash)
+  | some m => let r := apply m.cfg m.st op; (f.set who { m with st := r.1 }, r.2)
+
+/-- an interleaved history of calls on the members of a fleet -/
+def runFleet (f : List (Member S)) (ops : List (Nat × Op S)) : List (Member S) :=
+  ops.foldl (fun f o => (applyAt f o.1 o.2).1) f
+
+/-- the calls of an interleaved history that were made on member `i`, in order -/
+def callsOn (i : Nat) (ops : List (Nat × Op S)) : List (Op S) :=
+  (ops.filter (fun o => o.1 == i)).map (·.2)
+
 end
 
 end Mission
